@@ -48,3 +48,33 @@ Proof.
     rewrite Ho, app_nil_r in Hnew. rewrite Hnew in Hr.
     rewrite Forall_forall in Hclean. destruct (Hclean row Hr) as [Hvis _]. rewrite Heq, HT in Hvis. discriminate.
 Qed.
+
+(* ------------------------------------------------------------------ fields read through random_reference *)
+
+(* The copy of a row that the row history hands back has, under EVERY field name - hidden or not -
+   the value the live row has: reading `f` through a random_reference to the row gives what reading
+   it through the row itself gives (forward-reference slots aside, which the history flattens). *)
+Lemma hist_attr_live h cells c f w :
+  find_cell (c_table c) (c_id c) cells = Some c ->
+  in_history h (c_table c) (c_id c) = true ->
+  py_own_attr f || String.eqb f "sql_tablename" || String.eqb f "_data" = false ->
+  row_attr c f = Some w -> (forall n, w <> VSlot n) ->
+  hist_attr h cells (c_table c) (c_id c) f = Ok w.
+Proof.
+  intros Hc Hh Hown Hw Hns. unfold hist_attr, row_attr in *.
+  destruct (String.eqb f "id"); [injection Hw as <-; reflexivity|].
+  rewrite Hown, Hh, Hc, Hw. cbn [negb]. destruct w; try reflexivity. exfalso. eapply Hns. reflexivity.
+Qed.
+
+(* and a name the row does not have is an error whatever it looks like, never a silent `undefined` *)
+Lemma hist_attr_missing h cells c f :
+  find_cell (c_table c) (c_id c) cells = Some c ->
+  in_history h (c_table c) (c_id c) = true ->
+  py_own_attr f || String.eqb f "sql_tablename" || String.eqb f "_data" = false ->
+  row_attr c f = None ->
+  hist_attr h cells (c_table c) (c_id c) f = Err (DGE "history-attr").
+Proof.
+  intros Hc Hh Hown Hw. unfold hist_attr, row_attr in *.
+  destruct (String.eqb f "id"); [discriminate|].
+  rewrite Hown, Hh, Hc, Hw. reflexivity.
+Qed.
